@@ -622,9 +622,12 @@ def preprocess_observation(
         space_shape = (observation_space.n,)
 
     elif isinstance(observation_space, spaces.MultiDiscrete):
-        # Need to add batch dimension prior to splitting
+        # Need to add batch dimension prior to splitting: the raw observation has the
+        # space's own shape (len(nvec),), only its one-hot encoding has sum(nvec) entries
         space_shape = (sum(observation_space.nvec),)
-        observation: torch.Tensor = maybe_add_batch_dim(observation, space_shape)
+        observation: torch.Tensor = maybe_add_batch_dim(
+            observation, observation_space.shape
+        )
 
         # Tensor concatenation of one hot encodings of each Categorical sub-space
         observation = torch.cat(
